@@ -23,6 +23,10 @@ class ContractMixin:
     # ------------------------------------------------------------------ obligations
     def obligation(self, name, kind, tag, goal, node=None, exact=None):
         goal = self.bterm(goal) if isinstance(goal, bool) else goal
+        if z3.is_and(goal) and goal.num_args() > 1 and kind in ('inv', 'post', 'lemma'):
+            # one obligation per conjunct: smaller queries, more precise reports
+            obs = [self.obligation(f'{name}#{i}', kind, tag, c, node, exact) for i, c in enumerate(goal.children())]
+            return obs[0]
         st = self.ex.st
         defs = self.auto_unfold(goal)
         ob = Obligation(name, kind, tag, list(self.ex.base_hyps) + list(st.pc) + defs, goal, tuple(st.sig),
